@@ -32,6 +32,13 @@ POOL = [
     ('like', {'items': [{'e': ['a', 0]}], 'where': ['like', ['a', 1], '%;%']}, False),
     ('rterror', {'items': [{'e': ['len', ['a', 5]]}]}, False),
 ]
+PROBES = [('probe-recursion', 'select deep(1500), a1', 'def deep(n):\n    return 0 if n == 0 else 1 + deep(n - 1)\n'),
+          ('probe-cwd-env', 'select os.getcwd() == os.path.realpath(os.getcwd()), len(sys.path) < 1000, sys.getswitchinterval() < 1, a1', 'import os, sys\n')]
+# failures at every stage: shallow parse, header synthesis, compile() of the main loop (WHERE / ORDER BY / UPDATE text), join table lookup,
+# first record, later record, finish
+STAGE_FAILURES = [('fail-compile-where', 'select a1 where a1 = 1'), ('fail-compile-order', 'select a1 order by a1 a2'), ('fail-compile-update', 'update set a1 = (1'),
+                  ('fail-header', 'select a1, (a2'), ('fail-join-table', 'select a1 join zz on a1 == zz1'), ('fail-first-record', 'select int(a1)'),
+                  ('fail-late-record', 'select a1 where 1 // (2 - NR)'), ('fail-join-key', 'select a1, b2 strict left join b on a1 == b1')]
 PARSE_ERRORS = ['select a1 where a1 = 1', 'select', 'select a1 join zz on a1 == b1']
 CONTEXT_VARIANTS = [
     ('ctx-named-1', 'select a.name, a.id where a.id != "k2"', [['k1', 'ann', 'p'], ['k2', 'bob', 'q'], ['k3', 'cid', 'r']], ['id', 'name', 'team'], None, None),
@@ -101,11 +108,11 @@ class Wr(rbql_engine.RBQLOutputWriter):
         if self.sched is not None: self.sched.yield_point(self.tid)
         self.finished += 1
 
-def run_one(text, table, btable, sched=None, tid=0, header=None, bheader=None):
+def run_one(text, table, btable, sched=None, tid=0, header=None, bheader=None, init=''):
     it = It([r[:] for r in table], sched, tid, header); w = Wr(sched, tid); warnings = []
     reg = None if btable is None else rbql_engine.ListTableRegistry([rbql_engine.ListTableInfo('b', [r[:] for r in btable], bheader)])
     try:
-        rbql_engine.query(text, it, w, warnings, reg)
+        rbql_engine.query(text, it, w, warnings, reg, init or '')
         res = {'rows': canon(w.rows), 'finished': w.finished, 'warnings': warnings, 'header': w.header}
     except Exception as e:
         res = {'err': rbql_engine.exception_to_error_info(e)[0], 'msg': str(e)[:60]}
@@ -113,7 +120,8 @@ def run_one(text, table, btable, sched=None, tid=0, header=None, bheader=None):
     return res
 
 if mode == 'solo':
-    text, table, btable, header, bheader = arg
+    text, table, btable, header, bheader = arg[:5]
+    init = arg[5] if len(arg) > 5 else ''
     it = It(table, None, 0)
     # count the yield points of a solo run
     class Count(object):
@@ -121,7 +129,7 @@ if mode == 'solo':
         def yield_point(self, tid): self.n += 1
         def finish(self, tid): pass
     c = Count()
-    r = run_one(text, table, btable, c, 0, header, bheader)
+    r = run_one(text, table, btable, c, 0, header, bheader, init)
     r['steps'] = c.n
     print(json.dumps(r, default=repr))
 elif mode == 'interleave':
@@ -136,7 +144,7 @@ elif mode == 'interleave':
         s = Sched(sched_list)
         out = [None, None]
         def th(i, q):
-            out[i] = run_one(q['text'], q['table'], q['btable'], s, i, q.get('header'), q.get('bheader'))
+            out[i] = run_one(q['text'], q['table'], q['btable'], s, i, q.get('header'), q.get('bheader'), q.get('init', ''))
         t0 = threading.Thread(target=th, args=(0, qa)); t1 = threading.Thread(target=th, args=(1, qb))
         t0.start(); t1.start(); t0.join(60); t1.join(60)
         switches = sum(1 for i in range(1, len(sched_list)) if sched_list[i] != sched_list[i - 1])
@@ -157,7 +165,7 @@ elif mode == 'history':
             n += 1
             for pos, qi in enumerate(seq):
                 q = pool[qi]
-                got = run_one(q['text'], q['table'], q['btable'], None, 0, q.get('header'), q.get('bheader'))
+                got = run_one(q['text'], q['table'], q['btable'], None, 0, q.get('header'), q.get('bheader'), q.get('init', ''))
                 want = {k: v for k, v in q['solo'].items() if k != 'steps'}
                 if got != want and len(bad) < 3:
                     bad.append({'sequence': [pool[j]['text'] for j in seq], 'position': pos, 'query': q['text'], 'table': q['table'], 'header': q.get('header'),
@@ -210,9 +218,15 @@ def run(res, tier, seed):
     ctx_table = [['k1', 'x;y', 'p'], ['k2', 'z', 'q']]
     for name, text, tab, hdr, btab, bhdr in CONTEXT_VARIANTS:
         queries.append({'name': name, 'text': text, 'table': tab, 'btable': btab, 'abstract': None, 'header': hdr, 'bheader': bhdr})
+    # PROBES of interpreter-wide state a query could leave changed (recursion limit, …): their outcome in a fresh interpreter is
+    # an error / a fixed value; run after queries that FAIL AT DIFFERENT STAGES they must give the same
+    for name, text, init in PROBES:
+        queries.append({'name': name, 'text': text, 'table': table, 'btable': None, 'abstract': None, 'init': init})
+    for name, text in STAGE_FAILURES:
+        queries.append({'name': name, 'text': text, 'table': table, 'btable': BTABLE, 'abstract': None})
     # solo runs, each in a fresh interpreter
     with ThreadPoolExecutor(max_workers=common.NPROC) as ex:
-        solos = list(ex.map(lambda q: impl('solo', [q['text'], q['table'], q['btable'], q.get('header'), q.get('bheader')]), queries))
+        solos = list(ex.map(lambda q: impl('solo', [q['text'], q['table'], q['btable'], q.get('header'), q.get('bheader'), q.get('init', '')]), queries))
     for q, s in zip(queries, solos):
         q['solo'] = s
         q['steps'] = s['steps']
@@ -258,7 +272,15 @@ def run(res, tier, seed):
     for k in range(h2['n']):
         res.nontrivial.add(('ctx-history', k))
     res.exhaustive['all sequences of <= %d queries from a pool of %d same-text/different-context queries' % (ctx_len, len(ctx_pool))] = True
-    for bd in h['bad'][:2] + h2['bad'][:2]:
+    # probes after failures at every stage (and after successes)
+    probe_pool = [q for q in queries if q['name'].startswith('probe-') or q['name'].startswith('fail-')] + [q for q in queries if q['name'] in ('select', 'aggregate')]
+    h3 = impl('history', [probe_pool, 2], 3000)
+    res.evaluations += h3['n']
+    res.count('probe_histories', h3['n'])
+    for k in range(h3['n']):
+        res.nontrivial.add(('probe-history', k))
+    res.exhaustive['all sequences of <= 2 queries from a pool of %d stage failures, probes of interpreter-wide state and two ordinary queries' % len(probe_pool)] = True
+    for bd in h['bad'][:2] + h2['bad'][:2] + h3['bad'][:2]:
         res.violations.append({'property': 'C16', 'impl': 'py', 'why': 'a query run after other queries gave a result different from the fresh-interpreter run', 'detail': bd,
                                'case_key': 'C16|history|%s|%d' % (json.dumps(bd['sequence']), bd['position'])})
 
